@@ -702,6 +702,7 @@ func (s *Store) Open() (retErr error) {
 			s.logger.Printf("clean snapshot check CRC32 matched, calculation took %s", dur)
 		}()
 
+		vhook.Trace("store", "open.fast")
 		s.logger.Printf("detected successful prior snapshot operation, skipping restore")
 		raftConfig.NoSnapshotRestoreOnStart = true
 		removeDBFiles = false
@@ -2712,6 +2713,8 @@ func (s *Store) fsmSnapshot() (fSnap raft.FSMSnapshot, retErr error) {
 			s.numFullSnapshotsMetaFail.Add(1)
 			return nil, fmt.Errorf("checkpoint did not succeed during full snapshot")
 		}
+		vhook.Trace("store", "snap.ckpt", "kind", "full")
+		vhook.Crash("snap.ckpt.full")
 		streamer, err := snapshot.NewSnapshotStreamer(s.db.Path())
 		if err != nil {
 			return nil, err
@@ -2774,6 +2777,8 @@ func (s *Store) fsmSnapshot() (fSnap raft.FSMSnapshot, retErr error) {
 		if err := walWriter.Close(); err != nil {
 			return nil, err
 		}
+		vhook.Trace("store", "snap.ckpt", "kind", "incremental")
+		vhook.Crash("snap.staged")
 
 		// When it comes to incremental snapshotting of WAL files, we pass the WAL directory path to the
 		// Snapshot Store indirectly via the header. The Snapshotting system knows to check for this. It
@@ -2855,20 +2860,24 @@ func (s *Store) fsmRestore(rc io.ReadCloser) (retErr error) {
 	if err := rc.Close(); err != nil {
 		s.logger.Printf("error closing snapshot reader after restore: %s", err)
 	}
+	vhook.Crash("restore.extracted")
 
 	// Any existing SQLite file is about to be invalid, so mark that we can't
 	// fast-restart with it.
 	if err := fsutil.RemoveFile(s.cleanSnapshotPath); err != nil {
 		return fmt.Errorf("failed to remove clean snapshot file: %w", err)
 	}
+	vhook.Crash("restore.fpremoved")
 	if err := s.db.Swap(tmpPath, s.dbConf.FKConstraints, true); err != nil {
 		return fmt.Errorf("error swapping database file: %v", err)
 	}
+	vhook.Crash("restore.swapped")
 	s.logger.Printf("successfully opened database at %s due to restore", s.db.Path())
 	// Installed SQLite database is safe for fast restarts again.
 	if err := s.createSnapshotFingerprint(); err != nil {
 		return fmt.Errorf("failed to create snapshot fingerprint post restore: %s", err)
 	}
+	vhook.Crash("restore.fp")
 
 	// Take conservative approach and assume that everything has changed, so update
 	// the indexes. It is possible that dbAppliedIdx is now ahead of some other nodes'
@@ -3147,6 +3156,7 @@ func (s *Store) createSnapshotFingerprint() error {
 	if err := fp.WriteToFile(tmpFP); err != nil {
 		return fmt.Errorf("failed to write snapshot fingerprint to temp file: %s", err)
 	}
+	vhook.Crash("fp.tmp")
 	return os.Rename(tmpFP, s.cleanSnapshotPath)
 }
 
